@@ -35,6 +35,12 @@ def digests(pid, n, tier="quick", master=0):
     return out
 
 
+def runner_mod():
+    from . import runner
+
+    return runner
+
+
 def main(argv):
     if "--digests" in argv:
         bootstrap.init()
@@ -45,7 +51,7 @@ def main(argv):
     bootstrap.ensure_hashseed()
     bootstrap.init()
     full = "--full" in argv
-    n = 60 if full else 12
+    n = int(os.environ.get("DSIM_SELFTEST_N", "0")) or (60 if full else 12)
     rc = 0
     # schema validation
     try:
@@ -88,8 +94,19 @@ def main(argv):
                 print(f"selftest: {pid} digest mismatch under PYTHONHASHSEED={hs} for {len(diff)}/{len(a)} seeds, e.g. {diff[:3]}")
                 rc = 2
                 ok = False
+        if ok and full and not hasattr(runner_mod().load_prop(pid), "custom_check"):
+            # the same seeds farmed over 16 forked workers (what dsim.check does) must give the same digests as the
+            # sequential in-process runs above
+            agg = runner_mod().batch(pid, "quick", 0, n, 16, 600)
+            got = {str(k): v for k, v in agg["digests"].items()}
+            want = {k: v.split(":")[0] for k, v in a.items()}
+            bad = [k for k in want if got.get(k) != want[k]]
+            if bad or agg["harness_errors"]:
+                print(f"selftest: {pid} 16-worker batch differs from sequential runs for {len(bad)}/{len(want)} seeds, harness errors {len(agg['harness_errors'])}")
+                rc = 2
+                ok = False
         if ok:
-            print(f"selftest: {pid} deterministic over {n} seeds x (2 in-process + 2 fresh interpreters, hash seeds 0 and 12345)")
+            print(f"selftest: {pid} deterministic over {n} seeds x (2 in-process + 2 fresh interpreters, hash seeds 0 and 12345" + ("; + 16-worker batch)" if full else ")"))
     print("selftest:", "OK" if rc == 0 else "FAILED")
     return rc
 
